@@ -215,6 +215,10 @@ def table():
     recs.sort(key=lambda r: r["id"])
     from collections import Counter
     st = Counter(r["status"] for r in recs)
+    for r in recs:
+        if r["status"] == "passes-existing-tests" and any("cargo build failed" in " ".join(v["inconclusive"]) for v in r["checks"].values()):
+            r["status"] = "does-not-compile"   # under the cargo feature the check builds with (the default test run does not compile that code)
+    st = Counter(r["status"] for r in recs)
     surv = [r for r in recs if r["status"] == "passes-existing-tests"]
     det = [r for r in surv if r.get("detected_by")]
     out = ["# Mechanical mutants", "", "Single-token mutations of the anchored source files (`tools_mutants.py`), each applied in a scratch worktree, never in /repo.",
